@@ -73,20 +73,118 @@ def variant_names(g, enum_path):
     return {v['discr'] if v['discr'] is not None else i: v['name'] for i, v in enumerate(adt['variants'])}
 
 
-def arm_blocks(fn, sw_block, target):
-    """blocks that belong to one arm: reachable from the arm's target and dominated by it"""
+_REGION_CACHE = {}
+
+
+def _dom_region(fn, head):
     out = set()
-    st = [target]
+    st = [head]
     while st:
         b = st.pop()
-        if b in out:
-            continue
-        if not fn.dominates(target, b):
+        if b in out or not fn.dominates(head, b):
             continue
         out.add(b)
-        for s in fn.succ[b]:
-            st.append(s)
+        st.extend(fn.succ[b])
     return out
+
+
+def _scrutinee_base(fn, sw_block):
+    """base local of the place whose discriminant / value the switch tests"""
+    t = fn.term(sw_block)
+    d = t['d']
+    if d[0] not in ('c', 'm'):
+        return None
+    if len(d[1]) == 1:
+        sd = fn.single_def(d[1][0])
+        if sd is not None and sd[1] != 'term' and sd[2][0] == 'discr':
+            return sd[2][1][0]
+        if sd is not None and sd[1] != 'term' and sd[2][0] == 'use' and sd[2][1][0] in ('c', 'm'):
+            return sd[2][1][1][0]
+    return d[1][0]
+
+
+def _binding_only(fn, b, bound):
+    """block consists only of pattern bindings: copies / borrows / discriminant reads of the scrutinee
+    (or of values already bound from it).  `bound` is updated with the locals it binds."""
+    stmts, term = fn.blocks[b]
+    if term['k'] not in ('goto', 'switch'):
+        return False
+    for st in stmts:
+        if st[0] != 'a':
+            return False
+        rv = st[2]
+        src = None
+        if rv[0] == 'use' and rv[1][0] in ('c', 'm'):
+            src = rv[1][1][0]
+        elif rv[0] in ('ref', 'cfd', 'discr'):
+            src = rv[1][0]
+        if src is None or src not in bound:
+            return False
+        bound.add(st[1][0])
+    return True
+
+
+def arm_regions(fn, sw_block, n_values=None):
+    """target block -> set of blocks belonging to that arm: the blocks dominated by the arm's target,
+    plus - for or-patterns with bindings, which lower to per-variant binding blocks that jump into a
+    shared body - the blocks dominated by that shared body.  A shared body is a block all of whose
+    predecessors are binding-only blocks of this match (the join after the match has predecessors
+    that do real work, or is reached from every arm, and is never taken for one)."""
+    key = (id(fn), sw_block)
+    if key in _REGION_CACHE:
+        return _REGION_CACHE[key]
+    targets = list(dict.fromkeys(fn.succ[sw_block]))
+    scrut = _scrutinee_base(fn, sw_block)
+    # binding-only closure of each target
+    closure = {}
+    for t in targets:
+        bound = {scrut} if scrut is not None else set()
+        seen = set()
+        st = [t]
+        while st:
+            b = st.pop()
+            if b in seen or not fn.dominates(t, b):
+                continue
+            if not _binding_only(fn, b, bound):
+                continue
+            seen.add(b)
+            st.extend(fn.succ[b])
+        closure[t] = seen
+    owner = {}
+    for t, bs in closure.items():
+        for b in bs:
+            owner[b] = t
+    shared = {}
+    cand = set()
+    for t, bs in closure.items():
+        for b in bs:
+            for s_ in fn.succ[b]:
+                if s_ not in owner and len(fn.pred[s_]) > 1:
+                    cand.add(s_)
+    for e in cand:
+        origins = set()
+        ok = True
+        for p_ in fn.pred[e]:
+            if p_ in owner:
+                origins.add(owner[p_])
+            else:
+                ok = False
+                break
+        if ok and 2 <= len(origins) < len(targets):
+            shared[e] = origins
+    out = {}
+    for t in targets:
+        region = _dom_region(fn, t)
+        for e, origins in shared.items():
+            if t in origins:
+                region |= _dom_region(fn, e)
+        out[t] = region
+    _REGION_CACHE[key] = out
+    return out
+
+
+def arm_blocks(fn, sw_block, target, n_values=None):
+    return arm_regions(fn, sw_block).get(target, set())
 
 
 class ArmSummarizer:
@@ -214,7 +312,7 @@ class ArmSummarizer:
             by_tgt[t['o']] += rest
         out = {}
         for tgt, vs in by_tgt.items():
-            blocks = arm_blocks(fn, sw, tgt)
+            blocks = arm_blocks(fn, sw, tgt, len(names))
             w, c, e = self.summarize_blocks(fn, blocks, receiver)
             summ = {'writes': sorted(w), 'calls': sorted(c), 'errs': sorted(e)}
             for v in vs:
